@@ -158,6 +158,98 @@ def ax_proj_first(L, a, p, b, k):
                       proj(L, k)[0] == snd(p))
 
 
+_TWINS = None
+
+
+def rec_twins():
+    """Recursive definitions of the spec functions, used only to search for counter-models of an
+    undecided obligation (bounded lengths).  Same functions as the axioms describe."""
+    global _TWINS
+    if _TWINS is not None:
+        return _TWINS
+    L = z3.Const("rl", SeqP)
+    S2 = z3.Const("rs", SeqP)
+    k = z3.Const("rk", K)
+    v = z3.Const("rv", V)
+    o = z3.Const("ro", I)
+    n = z3.Length(L)
+    tl = z3.SubSeq(L, 1, n - 1)
+    h = L[0]
+    R = {}
+    projR = z3.RecFunction("projR", SeqP, K, SeqV)
+    z3.RecAddDefinition(projR, [L, k], z3.If(n == 0, EMPTY_V, z3.Concat(z3.If(fst(h) == k, z3.Unit(snd(h)), EMPTY_V), projR(tl, k))))
+    dropR = z3.RecFunction("dropR", SeqP, K, SeqP)
+    z3.RecAddDefinition(dropR, [L, k], z3.If(n == 0, EMPTY_P, z3.Concat(z3.If(fst(h) == k, EMPTY_P, z3.Unit(h)), dropR(tl, k))))
+    keysR = z3.RecFunction("keysR", SeqP, SeqK)
+    z3.RecAddDefinition(keysR, [L], z3.If(n == 0, EMPTY_K, z3.Concat(z3.Unit(fst(h)), keysR(tl))))
+    valsR = z3.RecFunction("valsR", SeqP, SeqV)
+    z3.RecAddDefinition(valsR, [L], z3.If(n == 0, EMPTY_V, z3.Concat(z3.Unit(snd(h)), valsR(tl))))
+    posR = z3.RecFunction("posR", SeqP, K, I, SeqI)
+    z3.RecAddDefinition(posR, [L, k, o], z3.If(n == 0, EMPTY_I, z3.Concat(z3.If(fst(h) == k, z3.Unit(o), EMPTY_I), posR(tl, k, o + 1))))
+    uptoR = z3.RecFunction("uptoR", SeqP, K, SeqP)
+    z3.RecAddDefinition(uptoR, [L, k], z3.If(n == 0, EMPTY_P, z3.If(fst(h) == k, EMPTY_P, z3.Concat(z3.Unit(h), uptoR(tl, k)))))
+    afterR = z3.RecFunction("afterR", SeqP, K, SeqP)
+    z3.RecAddDefinition(afterR, [L, k], z3.If(n == 0, EMPTY_P, z3.If(fst(h) == k, tl, afterR(tl, k))))
+    setR = z3.RecFunction("setspecR", SeqP, K, V, SeqP)
+    z3.RecAddDefinition(setR, [L, k, v], z3.If(z3.Length(projR(L, k)) == 0, z3.Concat(L, z3.Unit(mk(k, v))),
+                                              z3.Concat(uptoR(L, k), z3.Unit(mk(k, v)), dropR(afterR(L, k), k))))
+    foldR = z3.RecFunction("foldsetR", SeqP, SeqP, SeqP)
+    ns = z3.Length(S2)
+    z3.RecAddDefinition(foldR, [L, S2], z3.If(ns == 0, L, foldR(setR(L, fst(S2[0]), snd(S2[0])), z3.SubSeq(S2, 1, ns - 1))))
+    p = z3.Const("rp", Pair)
+    memPR = z3.RecFunction("memPR", SeqP, Pair, z3.BoolSort())
+    z3.RecAddDefinition(memPR, [L, p], z3.If(n == 0, z3.BoolVal(False), z3.Or(h == p, memPR(tl, p))))
+    sv = z3.Const("rsv", SeqV)
+    memVR = z3.RecFunction("memVR", SeqV, V, z3.BoolSort())
+    z3.RecAddDefinition(memVR, [sv, v], z3.If(z3.Length(sv) == 0, z3.BoolVal(False),
+                                               z3.Or(sv[0] == v, memVR(z3.SubSeq(sv, 1, z3.Length(sv) - 1), v))))
+    sk = z3.Const("rsk", SeqK)
+    memKR = z3.RecFunction("memKR", SeqK, K, z3.BoolSort())
+    z3.RecAddDefinition(memKR, [sk, k], z3.If(z3.Length(sk) == 0, z3.BoolVal(False),
+                                               z3.Or(sk[0] == k, memKR(z3.SubSeq(sk, 1, z3.Length(sk) - 1), k))))
+    i_, n_ = z3.Consts("ri rn", I)
+    clampR = z3.RecFunction("clampR", I, I, I)
+    z3.RecAddDefinition(clampR, [i_, n_], clamp_ite(i_, n_))
+    startR = z3.RecFunction("startR", I, I, I)
+    z3.RecAddDefinition(startR, [i_, n_], start_ite(i_, n_))
+    _TWINS = {proj: projR, dropk: dropR, keysf: keysR, valsf: valsR, posf: posR, setspec: setR, foldset: foldR,
+              memP: memPR, memV: memVR, memK: memKR, clampf: clampR, startf: startR}
+    return _TWINS
+
+
+def to_py(m, t):
+    """Concrete Python value of term t in model m (keys -> 'k<i>', values -> ints, pairs, lists)."""
+    e = m.eval(t, model_completion=True)
+    return _val(e)
+
+
+def _val(e):
+    srt = e.sort()
+    if srt == K or srt == V or srt == Item or srt == InsArgs:
+        nm = str(e)
+        num = nm.rsplit("!", 1)[-1]
+        num = int(num) if num.isdigit() else abs(hash(nm)) % 1000
+        return f"k{num}" if srt == K else (num if srt == V else nm)
+    if srt == Pair:
+        return (_val(e.arg(0)), _val(e.arg(1)))
+    if z3.is_int_value(e):
+        return e.as_long()
+    if z3.is_true(e) or z3.is_false(e):
+        return z3.is_true(e)
+    if z3.is_seq(e):
+        kd = e.decl().kind()
+        if kd == z3.Z3_OP_SEQ_EMPTY:
+            return []
+        if kd == z3.Z3_OP_SEQ_UNIT:
+            return [_val(e.arg(0))]
+        if kd == z3.Z3_OP_SEQ_CONCAT:
+            out = []
+            for c in e.children():
+                out.extend(_val(c))
+            return out
+    return str(e)
+
+
 def mem(kind, s, x):
     return {"seqP": memP, "seqV": memV, "seqK": memK}[kind](s, x)
 
@@ -290,6 +382,39 @@ class SeqTheory(BaseTheory):
             out.extend(lz.fn(ks))
         # a second round: the instances may mention no new K terms (WF does not)
         return out
+
+    def refute(self, prover, pc, goal, timeout_ms=15000, bound=3):
+        """Search a counter-model of  pc => goal  with the spec functions given by their recursive
+        definitions and every sequence constant bounded in length.  -> model or None."""
+        tw = rec_twins()
+        plain = [f for f in pc if z3.is_expr(f) and not z3.is_quantifier(f)]
+        lazy = [f for f in pc if not z3.is_expr(f)]
+        fs = plain + [z3.Not(goal)]
+        fs += self.expand(fs, lazy)
+        subs = []
+        for a, b in tw.items():
+            subs.append((a, b(*[z3.Var(i, a.domain(i)) for i in range(a.arity())])))
+        s = z3.Solver()
+        s.set("timeout", timeout_ms)
+        consts = {}
+        for f in fs:
+            g = z3.substitute_funs(f, *subs)
+            s.add(g)
+            todo = [g]
+            seen = set()
+            while todo:
+                e = todo.pop()
+                if e.get_id() in seen or z3.is_quantifier(e):
+                    continue
+                seen.add(e.get_id())
+                if z3.is_const(e) and e.decl().kind() == z3.Z3_OP_UNINTERPRETED and z3.is_seq(e):
+                    consts[e.get_id()] = e
+                todo.extend(e.children())
+        for c in consts.values():
+            s.add(z3.Length(c) <= bound)
+        if s.check() == z3.sat:
+            return s.model()
+        return None
 
     # ---- objects -----------------------------------------------------------------
     def new_md(self, ex, oid, cls, wf=True, fresh_state=True):
